@@ -143,6 +143,7 @@ type c13EpCall struct {
 	processed bool
 	cancelled bool
 	raced     bool // started while another caller's dial for the key was in flight
+	flap      bool // a health invalidation landed between its generation capture and its publication
 }
 
 // c13EpCacheable: the failure kinds after which the pool keeps a negative-cache
@@ -191,14 +192,17 @@ type c13Ep struct {
 	lastTo  netip.AddrPort
 	dialer  int
 	retired string // non-empty: the harness triggered a retire (reason)
+	flapped bool   // invalidated by a health change after it was built, before it was published
 }
 
 func (e *c13Ep) live() bool   { return !e.ue.dead.Load() && e.conn.closeCalls.Load() == 0 }
 func (e *c13Ep) closed() bool { return e.conn.closeCalls.Load() > 0 }
 
 type c13EpGen struct {
-	core  *controlPlaneCore
-	drain *controlPlaneDrainTracker
+	core    *controlPlaneCore
+	drain   *controlPlaneDrainTracker
+	tracker *udpConnStateTracker // the tracker the generation's tuples are accounted in
+	closed  bool                 // core.Close() was called (old generation after a reload)
 }
 
 type c13EpDialerInfo struct {
@@ -226,6 +230,7 @@ type c13EpWorld struct {
 	classes  map[string]bool
 	netType  dialer.NetworkType
 	stackBuf []byte
+	shared   bool
 	// negative cache model: per key, a lower bound of the instant until which a
 	// cached dial failure must keep answering (zero = none); lastObs is the
 	// virtual time of the previous oracle evaluation.
@@ -307,7 +312,7 @@ func (w *c13EpWorld) tail() string {
 }
 
 func c13NewEpWorld(shared bool) *c13EpWorld {
-	w := &c13EpWorld{epByUe: map[*UdpEndpoint]*c13Ep{}, classes: map[string]bool{}}
+	w := &c13EpWorld{epByUe: map[*UdpEndpoint]*c13Ep{}, classes: map[string]bool{}, shared: shared}
 	w.pool = NewUdpEndpointPool()
 	// three keys in three different creation shards
 	src := func(i int) netip.AddrPort {
@@ -357,11 +362,12 @@ func c13NewEpWorld(shared bool) *c13EpWorld {
 		w.bpfs = append(w.bpfs, sharedBpf)
 	}
 	for i := 0; i < 2; i++ {
-		core := &controlPlaneCore{}
+		cctx, ccancel := context.WithCancel(context.Background())
+		core := &controlPlaneCore{closed: cctx, close: ccancel}
 		if shared {
 			core.bpf.Store(sharedBpf)
 		}
-		w.gens = append(w.gens, &c13EpGen{core: core, drain: newControlPlaneDrainTracker()})
+		w.gens = append(w.gens, &c13EpGen{core: core, drain: newControlPlaneDrainTracker(), tracker: core.getUdpConnStateTracker()})
 	}
 	return w
 }
@@ -632,12 +638,16 @@ func (w *c13EpWorld) process(rt *rapid.T) {
 				rt.Fatalf("call %d on key %d reports isNew but the endpoint does not wrap the conn it dialled\nhistory: %s", c.id, c.key, w.tail())
 			}
 			ep.owner, ep.drain = c.gen, c.gen
+			ep.flapped = c.flap
 			if len(c.scripts) > 1 {
 				w.classes["success_on_retry"] = true
 			}
 		} else {
 			if c.ownConn != nil && c.ownConn != conn && c.ownConn.closeCalls.Load() == 0 {
 				rt.Fatalf("call %d on key %d dialled a conn, returned another endpoint and left its own conn open\nhistory: %s", c.id, c.key, w.tail())
+			}
+			if ep.flapped && !ep.sent && !ep.replied {
+				rt.Fatalf("call %d on key %d was handed endpoint #%d again although a health change invalidated its dialer after the endpoint was built (generation captured) and before it carried any traffic\nhistory: %s", c.id, c.key, ep.serial, w.tail())
 			}
 			if ep.retired != "" {
 				rt.Fatalf("call %d on key %d was handed endpoint #%d which had been retired (%s)\nhistory: %s", c.id, c.key, ep.serial, ep.retired, w.tail())
@@ -652,7 +662,9 @@ func (w *c13EpWorld) process(rt *rapid.T) {
 				ep.owner, ep.drain = c.gen, c.gen
 			}
 		}
-		if !ep.live() {
+		// (the creator of a flapped endpoint may find it replaced at once by a caller
+		// that was queued behind it: that caller sees the stale generation)
+		if !ep.live() && !(c.isNew && c.flap) {
 			rt.Fatalf("call %d on key %d was handed endpoint #%d which is dead/closed (dead=%v closeCalls=%d)\nhistory: %s",
 				c.id, c.key, ep.serial, ue.dead.Load(), conn.closeCalls.Load(), w.tail())
 		}
@@ -718,7 +730,7 @@ func (w *c13EpWorld) checkOwners(rt *rapid.T, what string) {
 		if ep.owner < 0 {
 			continue
 		}
-		tr := w.gens[ep.owner].core.getUdpConnStateTracker()
+		tr := w.gens[ep.owner].tracker
 		for k := range ep.tuples {
 			want[tk{tr, k}]++
 		}
@@ -728,7 +740,7 @@ func (w *c13EpWorld) checkOwners(rt *rapid.T, what string) {
 		if got := g.drain.Count(); got != drains[gi] {
 			rt.Fatalf("after %s: drain tracker of generation %d counts %d sessions, %d endpoints of it are open\nhistory: %s", what, gi, got, drains[gi], w.tail())
 		}
-		tr := g.core.getUdpConnStateTracker()
+		tr := g.tracker
 		if seen[tr] {
 			continue
 		}
@@ -894,6 +906,26 @@ func c13EndpointCase(rt *rapid.T) {
 		if len(parkedDials) > 0 {
 			acts = append(acts, "release", "release", "release", "cancel")
 		}
+		var flapDials []*c13EpDial
+		for _, d := range parkedDials {
+			if d.script.dial == "ok" {
+				flapDials = append(flapDials, d)
+			}
+		}
+		if len(flapDials) > 0 {
+			acts = append(acts, "release_flap", "release_flap")
+		}
+		if blocked == 0 && w.shared && !w.gens[0].closed {
+			old := false
+			for _, c := range w.calls {
+				if !c.isDone() && c.gen == 0 {
+					old = true
+				}
+			}
+			if !old {
+				acts = append(acts, "closecore")
+			}
+		}
 		if blocked == 0 {
 			acts = append(acts, "sleep", "sleep")
 			if len(w.eps) > 0 {
@@ -916,6 +948,9 @@ func c13EndpointCase(rt *rapid.T) {
 			gen := rapid.SampledFrom([]int{0, 0, 0, 0, 1, 1, 1, -1}).Draw(rt, "gen")
 			// racing callers of one key share the generation: which of them adopts
 			// last is up to the mutex hand-off and would not be predictable
+			if gen == 0 && w.gens[0].closed {
+				gen = 1 // the old generation no longer handles packets after its core was closed
+			}
 			for _, c := range w.calls {
 				if !c.isDone() && c.key == key {
 					gen = c.gen
@@ -933,6 +968,67 @@ func c13EndpointCase(rt *rapid.T) {
 			d := parkedDials[rapid.IntRange(0, len(parkedDials)-1).Draw(rt, "dial")]
 			w.tr("dial(call%d,k%d)->%s", d.call.id, d.call.key, d.script.dial)
 			w.releaseDial(d)
+		case "release_flap":
+			// The dial succeeds; the new endpoint captures its dialer generation and is
+			// then held up right before it is published (the harness keeps the shard's
+			// read lock, the creator waits for the write lock). A health change of its
+			// dialer lands in that window, then the endpoint is published.
+			d := flapDials[rapid.IntRange(0, len(flapDials)-1).Draw(rt, "fdial")]
+			sh := w.pool.shardFor(w.keys[d.call.key])
+			sh.mu.RLock()
+			w.releaseDial(d)
+			reached := false
+			for spin := 0; spin < 5000000 && !d.call.isDone(); spin++ {
+				if strings.HasPrefix(c13GoroutineStates(c13StackBuf)[d.call.gid.Load()], "sync.RWMutex.Lock") {
+					reached = true
+					break
+				}
+				runtime.Gosched()
+			}
+			nt := w.netType
+			busy := false
+			for _, ep := range w.eps {
+				if ep.dialer == d.script.dialer && !ep.closed() {
+					busy = true
+				}
+			}
+			n := 0
+			if reached {
+				n = w.pool.InvalidateDialerNetworkType(w.dialers[d.script.dialer].d, &nt)
+				d.call.flap = true
+				w.classes["flap_between_build_and_publish"] = true
+				if !busy {
+					w.classes["flap_between_build_and_publish_empty_index"] = true
+				}
+			}
+			sh.mu.RUnlock()
+			w.tr("dial(call%d,k%d)->ok+flap(d%d,reached=%v)=%d", d.call.id, d.call.key, d.script.dialer, reached, n)
+		case "closecore":
+			// reload hand-over finished: the old generation's core is closed while
+			// endpoints it still owns (never adopted) live on and release later
+			outlive, sharedT := 0, false
+			for _, ep := range w.eps {
+				if ep.owner == 0 && !ep.closed() {
+					outlive++
+					for k := range ep.tuples {
+						for _, o := range w.eps {
+							if o.owner == 1 && !o.closed() && o.tuples[k] {
+								sharedT = true
+							}
+						}
+					}
+				}
+			}
+			_ = w.gens[0].core.Close()
+			w.gens[0].closed = true
+			w.tr("closeOldCore(open old endpoints=%d)", outlive)
+			w.classes["old_core_closed"] = true
+			if outlive > 0 {
+				w.classes["old_endpoints_outlive_core_close"] = true
+			}
+			if sharedT {
+				w.classes["old_core_closed_with_tuple_shared_across_generations"] = true
+			}
 		case "cancel":
 			d := parkedDials[rapid.IntRange(0, len(parkedDials)-1).Draw(rt, "dial")]
 			w.tr("cancel(call%d,k%d)", d.call.id, d.call.key)
@@ -1045,7 +1141,7 @@ func c13EndpointCase(rt *rapid.T) {
 				continue
 			}
 			s := tupleSrc[rapid.IntRange(0, 1).Draw(rt, "tsrc")]
-			d := tupleDst[rapid.IntRange(0, 1).Draw(rt, "tdst")]
+			d := tupleDst[rapid.SampledFrom([]int{0, 0, 0, 1}).Draw(rt, "tdst")]
 			wasClosed := ep.closed()
 			ep.ue.TrackUdpConnStateTuplePair(s, d)
 			w.tr("track(ep#%d,%v,%v)", ep.serial, s, d)
@@ -1169,7 +1265,7 @@ func c13EndpointCase(rt *rapid.T) {
 		if n := g.drain.Count(); n != 0 {
 			rt.Fatalf("drain tracker of generation %d still counts %d sessions at quiescence\nhistory: %s", gi, n, w.tail())
 		}
-		tr := g.core.getUdpConnStateTracker()
+		tr := g.tracker
 		tr.mu.Lock()
 		n := len(tr.entries)
 		tr.mu.Unlock()
